@@ -159,7 +159,8 @@ def family_b(ck, n, jn, closing, runs, rnd, variant):
         ck.disagree(key='Path/' + key, site=site, what='%s (joints=%s closing=%s)' % (what, jn, closing),
                     case={'family': 'B', 'n': n, 'jn': jn, 'closing': closing, 'path': repr(path)}, expected=exp, observed=obs, driver='familyB')
 
-    def coherent(path, segs, tag):
+    def coherent(path, segs, tag, nseg=None):
+        n = nseg or len(segs)
         size = max(abs(z) for s in segs for z in (s.start, s.end)) + 1
         if not (abs(path.point(0) - segs[0].start) <= 1e-12 * size) or not (abs(path.point(1) - segs[-1].end) <= 1e-12 * size) \
                 or path.start != segs[0].start or path.end != segs[-1].end:
@@ -209,12 +210,38 @@ def family_b(ck, n, jn, closing, runs, rnd, variant):
     except Exception as e:      # noqa
         bad('item assignment with a negative index raised %r' % e, 'setitem-negative-index/raises', 'ok', repr(e))
         return
+    # t2T asked first after the edits (before point / T2t / length had a chance to refresh anything)
+    lens0 = [sg.length() for sg in segs]
+    try:
+        first = [hist.t2T(k_, 0.5) for k_ in range(n)]
+    except Exception as e:      # noqa
+        bad('t2T right after item assignment raised %r' % e, 't2T/first-query-after-mutation/raises', 'values', repr(e))
+        return
+    want = [(sum(lens0[:k_]) + 0.5 * lens0[k_]) / sum(lens0) for k_ in range(n)]
+    # (length(0, t) of a curve is not t * length: compare only where the segment is a Line; the others must at least lie in their interval)
+    for k_ in range(n):
+        lo_, hi_ = sum(lens0[:k_]) / sum(lens0), sum(lens0[:k_ + 1]) / sum(lens0)
+        if (isinstance(segs[k_], sp.Line) and not (abs(first[k_] - want[k_]) <= 1e-9)) or not (lo_ - 1e-9 <= first[k_] <= hi_ + 1e-9):
+            bad('t2T(%d, 0.5) = %r asked first after item assignment; the segment occupies [%r, %r]' % (k_, first[k_], lo_, hi_), 't2T/first-query-after-mutation', [lo_, hi_], first[k_])
+            return
     if list(hist) != segs or (cont and hist.isclosed() != bool(closing)) or not coherent(hist, segs, '/after-negative-index-assignment'):
         if list(hist) != segs:
             bad('segments after negative-index assignment differ', 'setitem-negative-index/segments', 'segs', repr(hist))
         elif cont and hist.isclosed() != bool(closing):
             bad('isclosed after negative-index assignment', 'isclosed/after-negative-index-assignment', closing, hist.isclosed())
         return
+    # arcs replaced by cubics in place on a measured path
+    if any(isinstance(sg, sp.Arc) for sg in segs):
+        conv = sp.Path(*[sp.Arc(sg.start, sg.radius, sg.rotation, sg.large_arc, sg.sweep, sg.end) if isinstance(sg, sp.Arc) else sg for sg in segs])
+        try:
+            conv.length(), conv.point(0.4)
+            conv.approximate_arcs_with_cubics()
+            ok_ = coherent(conv, list(conv), '/after-approximate_arcs_with_cubics', nseg=len(conv))
+        except Exception as e:      # noqa
+            bad('approximate_arcs_with_cubics on a measured path: %r' % e, 'approximate_arcs/raises', 'path', repr(e))
+            return
+        if not ok_:
+            return
     # a derived path: measured, then scaled anisotropically (the fractions change with the orientation of the segments)
     if not any(isinstance(sg, sp.Arc) for sg in segs):
         try:
